@@ -15,7 +15,10 @@ from vf.common import h
 from vf.runner import engine_pool, have_node, node_pool
 
 RECEIVERS = ["[]", "[1]", "[1, 2, 3]", "[3, 1, 2]", '["b", "a", "c"]', '[1, "1", true, null, undefined]', "[[1], [2]]", "[NaN, 0, -0]", "[undefined, 3, undefined, 1]",
-             '["10", "9", "1", 2]', "[1, 2, 3, 4, 5, 6]", '["x", "x", "y"]']
+             '["10", "9", "1", 2]', "[1, 2, 3, 4, 5, 6]", '["x", "x", "y"]',
+             # the same nested array object more than once (a shared reference is not a cycle), directly and through other arrays
+             "(function () { var b = [1, 2]; return [b, b]; })()", "(function () { var b = [5]; return [[b, b], [5, 1], b]; })()",
+             "(function () { var b = [2, 1]; var c = [b, 3]; return [c, b, c]; })()"]
 ARGS = ["undefined", "null", "NaN", "Infinity", "-Infinity", "-1", "0", "1", "2", "3", "100", "1.5", '"1"', '"a"', "true", "-2"]
 METHODS = ["push", "pop", "shift", "unshift", "toString", "join", "map", "filter", "reduce", "reduceRight", "forEach", "indexOf", "lastIndexOf", "find", "findIndex", "some", "every",
            "concat", "slice", "splice", "reverse", "includes", "sort"]
